@@ -15,6 +15,8 @@ E2_RING = {"name": "e2-ringbuffer", "engine": "e2", "harness": ["ringbuffer.cc"]
 
 E2_ARRAY = {"name": "e2-array", "engine": "e2", "harness": ["array.cc"], "repo_src": []}
 
+E2_SUBJECT = {"name": "e2-subject", "engine": "e2", "harness": ["subject.cc"], "repo_src": []}
+
 MC = "model_checking"
 
 CHECKS = {
@@ -24,6 +26,8 @@ CHECKS = {
     "C04": {"level": MC, "runs": [{"binary": E2_RING, "flavour": "asanub"}]},
     "C09": {"level": MC, "runs": [{"binary": E2_RING, "flavour": "asanub"}]},
     "C14": {"level": MC, "runs": [{"binary": E2_ARRAY, "flavour": "asanub"}]},
+    "C05": {"level": MC, "runs": [{"binary": E2_SUBJECT, "flavour": "asanub"}]},
+    "C10": {"level": MC, "runs": [{"binary": E2_SUBJECT, "flavour": "asanub"}]},
     "C07": {"level": MC, "runs": [{"binary": E1_POOL, "flavour": "plain"}, {"binary": E1_POOL, "flavour": "asan", "args": ["--max-bound", "1"]}]},
     "C08": {"level": MC, "runs": [{"binary": E1_POOL, "flavour": "plain"}]},
     "C15": {"level": MC, "runs": [{"binary": E1_RACE, "flavour": "tsan"}]},
